@@ -330,3 +330,7 @@ def run(R, ctx):
     # data files required by a bundle go through the same serde -> Lua expression serializer (transcode): its value preservation
     from . import c14 as _c14
     _c14.data_values(R, ctx, rid="C05.data")
+    # the module a bundle inlines is the one find_require returns: relative requires (`./`, `../`, from plain files and from module-folder
+    # files at the root, in a folder, above the working directory) resolve as documented, for every layout of candidate files
+    from . import c15 as _c15
+    _c15.relative_resolution(R, ctx, "C05.resolve")
